@@ -21,6 +21,7 @@ class StatementSplitter:
         self._is_create = False
         self._begin_depth = 0
         self._loop_pending = False
+        self._after_end = False
 
         self.consume_ws = False
         self.tokens = []
@@ -28,6 +29,11 @@ class StatementSplitter:
 
     def _change_splitlevel(self, ttype, value):
         """Get the new split level (increase, decrease or remain equal)"""
+
+        # "END CASE" arrives as the two keywords END and CASE
+        after_end = self._after_end
+        if ttype not in T.Whitespace and ttype not in T.Comment:
+            self._after_end = False
 
         # parenthesis increase/decrease a level
         if ttype is T.Punctuation and value == '(':
@@ -66,6 +72,7 @@ class StatementSplitter:
 
         # BEGIN and CASE/WHEN both end with END
         if unified == 'END':
+            self._after_end = True
             # only lower the level if this END closes something that
             # raised it
             if self._case_depth > 0:
@@ -79,6 +86,9 @@ class StatementSplitter:
         if (unified in ('IF', 'FOR', 'WHILE', 'CASE')
                 and self._is_create and self._begin_depth > 0):
             if unified == 'CASE':
+                if after_end:
+                    # END CASE: the END has closed the CASE statement
+                    return 0
                 self._case_depth += 1
             elif unified != 'IF':
                 # FOR ... LOOP and WHILE ... LOOP end with END LOOP
